@@ -125,13 +125,22 @@ class Gen:
         for _ in range(n):
             if top:
                 # RunProgram directly under a depth-0 Try takes the outermost path (not modelled)
-                c = r.choice(["CA", "CO", "TRY", "FOROF"]) if d > 0 else "CA"
+                c = r.choice(["CA", "CO", "TRY", "FOROF", "CAS", "TRYS"]) if d > 0 else r.choice(["CA", "CAS"])
             else:
-                c = r.choice(["RP", "CA", "CO", "TRY", "FOROF"]) if d > 0 else r.choice(["RP", "CA"])
-            if c == "RP":
+                c = r.choice(["RP", "CA", "CO", "TRY", "FOROF", "RPS", "CAS", "TRYS"]) if d > 0 else r.choice(["RP", "CA", "RPS", "CAS"])
+            if c in ("RP", "RPS"):
                 b, jb = self.beh(d)
-                ops.append({"op": "RP", "src": jb})
-                toks.append(["Ap"] + b)
+                ops.append({"op": c, "src": jb})
+                toks.append(["Ap" if c == "RP" else "Bp"] + b)
+            elif c == "CAS":
+                f, b = self.fn(d)
+                k = r.randint(0, 2)
+                ops.append({"op": "CAS", "fn": f, "n": k})
+                toks.append(["Bw", "G", str(k)] + b)
+            elif c == "TRYS":
+                sub, st = self.goops(d - 1, top)
+                ops.append({"op": "TRYS", "ops": sub})
+                toks.append(["Bt"] + st)
             elif c in ("CA", "CO"):
                 f, b = self.fn(d)
                 k = r.randint(0, 2)
@@ -279,6 +288,12 @@ def regression_seeds():
     # F3 unwind-abort (570c7df): the iterator's return() is interrupted while a throw unwinds the for-of
     s.append(H(-1, [["RP", "1", "i", "S", "Fn", "1", "K", "FO", "G", "0", "P", "1", "T"]],
                [{"api": "RP", "src": "var it1 = MKIT(function(){ P(1); return {}; }); for (var w of it1) { throw new Error('t'); }", "k": 1, "kind": "i"}]))
+    # F3, throw arriving as a Go panic through a native (one handleThrow only): needs the deferred truncation
+    s.append(H(-1, [["RP", "1", "i", "S", "Fn", "1", "K", "FO", "G", "0", "P", "1", "Fn", "1", "G", "3", "T"]],
+               [{"api": "RP", "src": "var it1 = MKIT(function(){ P(1); return {}; }); for (var w of it1) { [0].forEach(function(){ throw new Error('t'); }); }", "k": 1, "kind": "i"}]))
+    # F4 with a native that ignores the StackOverflowError of the nested RunProgram: the rest of f and of the script must run
+    s.append(H(2, [["RP", "0", "t", "S", "Fc", "0", "S", "Fn", "0", "Bp", "P", "1", "P", "2", "P", "3"]],
+               [{"api": "RP", "src": "(function(){ G1(); P(2); })(); P(3);", "k": 0, "kind": "t"}], "", {"G1": [{"op": "RPS", "src": "P(1);"}]}))
     # F4 rec-overflow (195a32b): re-entrant RunProgram exactly at the call-depth limit
     s.append(H(2, [["RP", "0", "t", "S", "Fc", "0", "S", "Fn", "0", "Ap", "P", "1", "P", "2", "P", "3"]],
                [{"api": "RP", "src": "(function(){ G1(); P(2); })(); P(3);", "k": 0, "kind": "t"}], "", {"G1": [{"op": "RP", "src": "P(1);"}]}))
@@ -301,6 +316,9 @@ def regression_seeds():
 
 
 WILD_SEEDS = [
+    # still unrepaired (known: defect:generator-create-overflow): overflow while a generator / async activation is created
+    {"max": 1, "prelude": "", "calls": [{"api": "RP", "src": "async function f(){ await 1 } f()", "k": 0, "kind": "t"}], "natives": {}},
+    {"max": 1, "prelude": "", "calls": [{"api": "RP", "src": "var g=(function*(){ yield 1 })(); g.next()", "k": 0, "kind": "t"}], "natives": {}},
     # F3 variant / F6 generator marker leak (e8f901b) originals
     {"max": 16, "prelude": "", "calls": [{"api": "RP", "src": "var it={ [Symbol.iterator](){ return { next(){ P(1); return {value:1,done:false} }, return(){ P(2); return {} } } } }; var [a,b]=it; P(3);", "k": 1, "kind": "i"}], "natives": {}},
     {"max": 44, "prelude": "function W0(){ function* g(){ try { yield 1; yield 2 } finally { P(1) } } for (var v of g()) { P(2); throw new Error('q') } }", "calls": [{"api": "CO", "fn": "W0", "n": 2, "k": 2, "kind": "i"}], "natives": {}},
@@ -456,8 +474,16 @@ def main(ctx):
             ndiff += 1
             if ndiff <= 3:
                 small = shrink(run, h, lambda hh: (run.mod([hh]) or ["?"])[0] != strip_probe(run.impl([hh])[0][0]))
-                p = ctx.write_replay("corr-mismatch-%d" % ndiff, replay_obj(small, run))
-                ctx.log("model/implementation disagree, replay", p)
+                # the model provably satisfies the property (Props.lean) and is the spec for this history: an observable
+                # difference of outcome / probe trace / idle vector is a concrete failing input
+                mo = (run.mod([small]) or ["?"])[0]
+                io = strip_probe(run.impl([small])[0][0])
+                ci = next((j for j, (x, y) in enumerate(zip(io.split(" ; "), mo.split(" ; "))) if x != y), 0)
+                api = small["calls"][ci]["api"] if ci < len(small["calls"]) else "?"
+                what = [n for n, (x, y) in zip(["outcome", "trace", "state"], zip((io.split(" ; ") + [""])[ci].split("|"), (mo.split(" ; ") + [""])[ci].split("|"))) if x != y]
+                ctx.violation("model-mismatch:%s:%s" % (api, "+".join(what)),
+                              "the runtime deviates from the proved model on a generated history (call %d, %s)" % (ci, "+".join(what)),
+                              replay_obj(small, run))
         bad = judge_impl(h, line)
         if bad:
             viol.append((h, bad))
@@ -506,7 +532,7 @@ def main(ctx):
 
     ctx.assumptions += [
         "All catchable Go-side payloads (Value, *Object, GoError, *Exception) are one `thrown` outcome in the model (exceptionFromValue maps them all to a non-nil *Exception).",
-        "Natives re-panic errors returned by nested API calls (the harness natives do); a native that swallows an InterruptedError is outside the model.",
+        "Natives either re-panic or ignore the error returned by a nested API call (both are modelled: `api` / `swallow` nodes); a pending InterruptedError cannot be ignored in effect because the flag stays set until the outermost call returns.",
         "Generators/async (suspend/resume) are outside the mechanism model; they are exercised only against the spec-level oracle (stream B).",
     ]
     ctx.trusted_base += ["/repo/verif_hooks_c03.go (read-only accessor VerifC03VMState)",
@@ -517,15 +543,24 @@ def main(ctx):
 
 
 def classify(h, bad, line):
-    """Signature of the one defect that is still unrepaired in /repo (known_findings.d/C03.json): the shrunk
-    history must be a single call, under a depth limit, ending with an uncatchable, whose only deviation is one
-    leftover try frame, and its source must create a generator / async activation."""
+    """Signature of the one defect that is still unrepaired in /repo (known_findings.d/C03.json,
+    fixes/C03-generator-create-overflow.diff): the shrunk history must be a single call under a depth limit that ends
+    with an uncatchable, leaves at least one try frame behind (the stale generator marker; sp / call / iter / ref
+    records may follow from the boundary restoring from the wrong frame), and its source must create a generator or
+    async activation.  Anything else keeps its own `leak:` signature."""
     calls, _ = split_calls(line)
-    if len(h["calls"]) != 1 or h["max"] < 0 or [w for _, w in bad] != ["not-idle:tryStack"]:
+    if len(h["calls"]) != 1 or h["max"] < 0 or not calls or len(calls[0]) != 3 or calls[0][0] != "fatal":
         return None
-    if calls[0][0] != "fatal" or calls[0][2].split(",")[6] != "1":
+    dev = [w for i, w in bad if i == 0]
+    rest = [w for i, w in bad if i != 0]
+    if len(dev) != 1 or not dev[0].startswith("not-idle:") or "tryStack" not in dev[0].split(":")[1].split("+"):
         return None
-    src = h["prelude"] + h["calls"][0].get("src", "")
+    if any(w != "behaviour-differs" for w in rest):
+        return None
+    if set(dev[0].split(":")[1].split("+")) - {"sp", "tryStack", "callStack", "iterStack", "refStack", "prgNil", "stashGlobal", "privEnvNil"}:
+        return None
+    c = h["calls"][0]
+    src = h["prelude"] + c.get("src", "")
     if "function*" in src or "async " in src:
         return "defect:generator-create-overflow"
     return None
